@@ -371,6 +371,111 @@ def own_units_checks(rep):
             rep.violation("constants", "reaction:units-follow-an-object-held-elsewhere:" + name, {"before": json.loads(before), "after": json.loads(after)})
 
 
+# ---- histories of one reaction object (specs/ReactionEdit.tla): TLC generates call sequences, the object is driven along them ----
+RE_EQS = {1: "A -> B", 2: "A + B -> C", 3: "2 A -> ", 4: " -> A + 2 B"}
+
+
+def reaction_history_checks(rep, tier, seed, rng):
+    from strengths import UnitValue, UnitsSystem, reaction_from_dict, reaction_to_dict
+    depth = 3 if tier == "quick" else 4
+    tlc.write_cfg("MC_ReactionEdit_d", open(tlc.workdir() + "/MC_ReactionEdit.cfg").read().replace("Depth = 3", "Depth = %d" % depth))
+    r = tlc.run("MC_ReactionEdit", cfg="MC_ReactionEdit_d", timeout=3000, heap="8g")
+    rep.add_tlc("MC_ReactionEdit (every history of %d calls on one reaction object)" % depth, r)
+    if not r.ok:
+        if r.violated:
+            rep.violation("model", "model:reactionedit:" + r.violated, {"tlc": r.tail(30)})
+        else:
+            raise MachineryError("TLC failed: %s\n%s" % (r.error, r.tail(20)))
+    want, tmo = (1200, 40) if tier == "quick" else (15000, 240)
+    lines, st = tlc.stream("MC_ReactionEdit", "Gen_ReactionEdit", want, seed=seed * 3 + 19, simulate_depth=14, timeout=tmo)
+    if st["error"]:
+        raise MachineryError("TLC generator failed: %s\n%s" % (st["error"], "\n".join(st["other_tail"])))
+    if len(lines) < want // 10:
+        raise MachineryError("TLC generated only %d reaction histories" % len(lines))
+    si = UnitsSystem(space="m", time="s", quantity="molecule")
+    fl = lambda m: float(UO.mono(m))
+    cl = lambda a, b: a == b or abs(a - b) <= 1e-12 * max(abs(a), abs(b))
+
+    def kunit(sys_, n):
+        parts = []
+        for u, e in zip(sys_, (3 * n - 3, -1, 1 - n)):
+            if e:
+                parts.append(u if e == 1 else "%s%d" % (u, e))
+        return ".".join(parts)
+
+    ops = {}
+    for l in lines:
+        prog = json.loads(tlc.unquote_tla_json(l))
+        steps = prog["steps"]
+        hist = [(x["op"], x["args"]) for x in steps]
+        rep.case({"reaction-history": hist})
+        first = steps[0]
+        tag = {"history": hist, "initial": {"equation": RE_EQS[first["eq0"]["id"]], "units": first["usys0"]}}
+        with rep.guard("reaction-history", tag):
+            eqid, us0 = first["eq0"]["id"], first["usys0"]
+            robj = Reaction(RE_EQS[eqid], kf=2, kr=3, units_system=UnitsSystem(space=us0[0], time=us0[1], quantity=us0[2]))
+            handed = []
+            for k, st_ in enumerate(steps):
+                op, a = st_["op"], st_["args"]
+                ops[op] = ops.get(op, 0) + 1
+                fo, ro = st_["eq"]["fo"], st_["eq"]["ro"]
+
+                def q(v, u, n):
+                    if u == ["bare"]:
+                        return rng.choice([v, float(v)])
+                    x = rng.choice([UnitValue(v, kunit(u, n)), "%d %s" % (v, kunit(u, n))]) if kunit(u, n) else rng.choice([UnitValue(v, ""), v])
+                    if isinstance(x, UnitValue):
+                        handed.append(x)
+                    return x
+                try:
+                    if op == "set_kf":
+                        robj.kf = q(a["v"], a["u"], fo)
+                    elif op == "set_kr":
+                        robj.kr = q(a["v"], a["u"], ro)
+                    elif op == "set_k":
+                        robj.set_k(a["v"], float(a["w"]))
+                    elif op == "set_units":
+                        us_ = UnitsSystem(space=a["u"][0], time=a["u"][1], quantity=a["u"][2])
+                        robj.units_system = rng.choice([us_, {"space": a["u"][0], "time": a["u"][1], "quantity": a["u"][2]}])
+                        handed.append(us_)
+                    elif op == "take_half":
+                        robj = robj.split()[a["h"] - 1]
+                    elif op == "copy":
+                        robj = robj.copy()
+                    elif op == "roundtrip":
+                        robj = reaction_from_dict(json.loads(json.dumps(reaction_to_dict(robj))))
+                    elif op == "caller_edits":
+                        while handed:
+                            x = handed.pop()
+                            if isinstance(x, UnitValue):
+                                x.value = 77.0
+                            else:
+                                x.time, x.space = "h", "km"
+                    else:
+                        raise MachineryError("unknown operation in a generated reaction history: %r" % op)
+                    got = {"kf": float(robj.kf.convert(si).value), "kr": float(robj.kr.convert(si).value), "order": [robj.order(), robj.rorder()],
+                           "usys": [robj.units_system["space"], robj.units_system["time"], robj.units_system["quantity"]]}
+                    K = robj.K
+                    got["K"] = None if K is None else float(K.convert(si).value)
+                except MachineryError:
+                    raise
+                except Exception as ex:  # noqa
+                    rep.violation("reaction-history", "reaction:history:exception:" + op, dict(tag, step=k + 1, exc=repr(ex)[:200]))
+                    break
+                wantK = None if "none" in st_["K"] else fl(st_["K"])
+                ok = (cl(got["kf"], fl(st_["kf"])) and cl(got["kr"], fl(st_["kr"])) and got["order"] == [fo, ro] and got["usys"] == list(st_["usys"])
+                      and ((got["K"] is None) == (wantK is None)) and (wantK is None or cl(got["K"], wantK)))
+                if not ok:
+                    rep.violation("reaction-history", "reaction:history:" + op,
+                                  dict(tag, step=k + 1, got=got, spec={"kf": fl(st_["kf"]), "kr": fl(st_["kr"]), "order": [fo, ro], "usys": st_["usys"], "K": wantK}))
+                    break
+    rep.extra["reaction_histories_generated"] = len(lines)
+    rep.extra["reaction_history_calls_by_kind"] = ops
+    missing = {"set_kf", "set_kr", "set_k", "set_units", "take_half", "copy", "roundtrip", "caller_edits"} - set(ops)
+    if missing:
+        raise MachineryError("generated reaction histories never contain: %s" % sorted(missing))
+
+
 def run(tier, selftest=False, only=None):
     rep = Report(PROP, tier)
     rep.rule = ("model: all equations over labels {A, B, C, '2'} x coefficients {absent, 0, 1, 2, 3, 9} with up to 2 (thorough 3) "
@@ -422,6 +527,7 @@ def run(tier, selftest=False, only=None):
     matrix_checks(rep, cases, rng)
     with rep.guard("own-units", None):
         own_units_checks(rep)
+    reaction_history_checks(rep, tier, util.seed(), rng)
     rep.traces = len(cases)
     rep.extra["equations"] = len(cases)
     c = cases[len(cases) // 2]
